@@ -383,12 +383,15 @@ fn main() {
     let mut plens: Vec<(usize, bool)> = Vec::new(); // (payload length, heavy = many subsets)
     let lim_r = MAX_DATA_PER_SLICE;
     let lim_k = MAX_DATA_PER_SLICE - KEY_BYTES;
+    // thorough: the four shards (work/C11/shard<k>) split *every* length 9..=max+2 by residue mod 4
+    let shard = args.out.file_name().and_then(|n| n.to_str()).and_then(|n| n.strip_prefix("shard")).and_then(|n| n.parse::<usize>().ok()).unwrap_or(0) % 4;
     if args.thorough {
-        // shards split the whole range 9..=max+2 by seed-derived offset: every length, in strides of 4
-        let off = (args.seed % 4) as usize;
-        let mut l = 9 + off;
+        let mut l = 9 + (shard + 3) % 4; // 9 % 4 == 1
+        while l % 4 != shard {
+            l += 1;
+        }
         while l <= lim_r + 2 {
-            plens.push((l, l % 512 < 4));
+            plens.push((l, l % 1024 < 4));
             l += 4;
         }
         for l in lim_k - 2..=lim_k + 2 {
@@ -442,10 +445,11 @@ fn main() {
         cx.class = 0;
         cx.rec.begin_case(if heavy { "roundtrip-heavy" } else { "roundtrip" });
         cx.slice(spec);
-        // light cases: two of the four shredders (rotating), heavy cases: all four
-        let skip = if heavy || args.thorough { 5 } else { rng.below(2) as usize };
+        // light cases: two of the four shredders (quick) / one (thorough: every length is visited), rotating
+        let skip = if heavy { 5 } else { rng.below(2) as usize };
+        let only = (plen / 4 + args.seed as usize) % 4;
         for (vi, v) in V::ALL.into_iter().enumerate() {
-            if vi % 2 == skip {
+            if vi % 2 == skip || (args.thorough && !heavy && vi != only) {
                 continue;
             }
             cx.shred(v, rng.below(256));
@@ -469,7 +473,7 @@ fn main() {
                 let mut m = range_mask(1, 64);
                 m[1 + rng.below(63) as usize] = false;
                 masks.push(m);
-            } else {
+            } else if !args.thorough {
                 let k = rng.below(65) as usize;
                 masks.push(random_mask(&mut rng, k));
             }
